@@ -1,6 +1,8 @@
 import OpusModel.KernelsPvq
 import Mathlib.Tactic.Ring
 import Mathlib.Tactic.Linarith
+import Mathlib.Algebra.Order.Floor.Ring
+import Mathlib.Data.Rat.Floor
 /-
   OpusProofs.KernelsPvq — whatever the floating-point arg-max and pre-search return (within their contracts), the PVQ
   search hands back exactly K pulses, signed like the input, and `yy = Σ iy²`.
@@ -109,5 +111,60 @@ theorem search_spec (restore : Nat → Bool → Int) (hr : ∀ v b, restore v b 
   · show sumAbs (zipSign restore _ signs) = K; rw [z2]; omega
   · show ((greedy pick _ _).yy : Int) = sumSqI (zipSign restore _ signs); rw [z3, g2]
   · intro j hj; exact z4 j (by rw [g1]; exact hj)
+
+/-! ### the pre-search contract, in exact arithmetic
+
+  vq.c:197-235 / vq_sse2.c:91-136: `sum = Σ|X[j]|`, `rcp = (K+0.8)·(1/sum)`, `iy[j] = floor(rcp·|X[j]|)` (SSE2: truncating
+  conversion of a non-negative product).  Over any ordered field with a floor (ℚ, ℝ): if the scale factor `r` that was
+  actually used satisfies `r·Σ|x| < K+1`, the counts are non-negative and sum to at most K — the contract `hsum` of
+  `search_spec`.  With exact division `r = (K+4/5)/Σ|x|` that is `K + 4/5 < K + 1`; a relative error ε of the computed
+  reciprocal/sum is tolerated while `ε·(5K+4) < 1`.  That the binary32 evaluation (rounded sum, `_mm_rcp_ps` with its
+  1.5·2⁻¹² relative error, rounded products) stays inside this margin is NOT proved. -/
+
+section presearch
+variable {α : Type} [Field α] [LinearOrder α] [IsStrictOrderedRing α] [FloorRing α]
+
+def fsum : List α → α
+  | [] => 0
+  | v :: l => v + fsum l
+
+/-- the counts the pre-search stores: `floor(r·x)` of a non-negative number, as a natural number. -/
+def counts (r : α) (xs : List α) : List Nat := xs.map (fun x => ⌊r * x⌋.toNat)
+
+theorem counts_sum_le (r : α) (xs : List α) (hx : ∀ x ∈ xs, 0 ≤ x) (hr : 0 ≤ r) :
+    ((sum (counts r xs) : Nat) : α) ≤ r * fsum xs := by
+  induction xs with
+  | nil => simp [counts, sum, fsum]
+  | cons x xs ih =>
+    have hx0 : 0 ≤ r * x := mul_nonneg hr (hx x (by simp))
+    have h1 : ((⌊r * x⌋.toNat : Nat) : α) ≤ r * x := by
+      have hf : 0 ≤ ⌊r * x⌋ := Int.floor_nonneg.mpr hx0
+      have e : ((⌊r * x⌋.toNat : Nat) : ℤ) = ⌊r * x⌋ := Int.toNat_of_nonneg hf
+      have e2 : ((⌊r * x⌋.toNat : Nat) : α) = ((⌊r * x⌋ : ℤ) : α) := by
+        conv_rhs => rw [← e]
+        exact (Int.cast_natCast _).symm
+      rw [e2]; exact Int.floor_le _
+    have h2 := ih (fun y hy => hx y (by simp [hy]))
+    simp only [counts, List.map_cons, sum, fsum, Nat.cast_add] at h2 ⊢
+    have : r * (x + fsum xs) = r * x + r * fsum xs := by ring
+    rw [this]; exact add_le_add h1 h2
+
+theorem presearch_contract (K : Nat) (r : α) (xs : List α) (hx : ∀ x ∈ xs, 0 ≤ x) (hr : 0 ≤ r)
+    (h : r * fsum xs < (K : α) + 1) : (counts r xs).length = xs.length ∧ sum (counts r xs) ≤ K := by
+  refine ⟨by simp [counts], ?_⟩
+  have h1 := counts_sum_le r xs hx hr
+  have h2 : ((sum (counts r xs) : Nat) : α) < ((K + 1 : Nat) : α) := by push_cast; exact lt_of_le_of_lt h1 h
+  have h3 : sum (counts r xs) < K + 1 := by exact_mod_cast h2
+  omega
+
+/-- exact reciprocal, and a reciprocal/sum with relative error up to ε where ε·(5K+4) < 1. -/
+theorem presearch_margin (K : Nat) (S ε r : α) (hS : 0 < S) (hε : 0 ≤ ε) (hm : ε * (5 * (K : α) + 4) < 1)
+    (hr : r ≤ ((K : α) + 4 / 5) / S * (1 + ε)) : r * S < (K : α) + 1 := by
+  have h1 : r * S ≤ ((K : α) + 4 / 5) / S * (1 + ε) * S := mul_le_mul_of_nonneg_right hr (le_of_lt hS)
+  have h2 : ((K : α) + 4 / 5) / S * (1 + ε) * S = ((K : α) + 4 / 5) * (1 + ε) := by field_simp
+  rw [h2] at h1
+  nlinarith [h1, hm, hε]
+
+end presearch
 
 end Opus.Kernels.Pvq
